@@ -69,6 +69,9 @@ func (p *c04) Init(tier string) {
 		{"a!=m", cmp("!=", "x.a", "y.m"), false},
 		{"k<k", cmp("<", "x.k", "y.k"), false},
 		{"b>=z(reversed)", cmp(">=", "y.b", "x.z"), false},
+		// column names with upper-case letters
+		{"uId=oId", eq("x.uId", "y.oId"), true},
+		{"uId<oId", cmp("<", "x.uId", "y.oId"), false},
 	}
 	p.ons = append(p.ons, atoms...)
 	and := func(a, b c04on) c04on { return c04on{a.name + " AND " + b.name, And{a.e, b.e}, a.equi && b.equi} }
@@ -106,7 +109,7 @@ func (p *c04) Init(tier string) {
 		}
 	}
 	// aliases one of which is a prefix of the other, in both assignments
-	for _, on := range []int{0, 1, 2, 5, 10, 11, 15, 20, 26, 27, 31} {
+	for _, on := range []int{0, 1, 2, 5, 10, 11, 12, 15, 20, 26, 27, 31} {
 		for k := range p.kinds {
 			for al := 1; al < len(c04Aliases); al++ {
 				p.cases = append(p.cases, c04case{on: on, kind: k, al: al})
@@ -120,16 +123,16 @@ func (p *c04) Init(tier string) {
 		}
 	}
 	la := []map[string]any{
-		{"k": "a", "s": "-b", "z": 1.0, "a": 1.0},
-		{"k": "a-", "s": "b", "z": 2.0, "a": 2.0},
-		{"k": "a", "s": "b", "z": 1.0, "a": 3.0},
-		{"k": "b", "s": "-b", "z": 2.0, "a": 1.0},
+		{"k": "a", "s": "-b", "z": 1.0, "a": 1.0, "uId": 9.0},
+		{"k": "a-", "s": "b", "z": 2.0, "a": 2.0, "uId": 10.0},
+		{"k": "a", "s": "b", "z": 1.0, "a": 3.0, "uId": 2.0},
+		{"k": "b", "s": "-b", "z": 2.0, "a": 1.0, "uId": 10.0},
 	}
 	ra := []map[string]any{
-		{"k": "a", "s": "-b", "b": 1.0, "m": 1.0},
-		{"k": "a-", "s": "b", "b": 2.0, "m": 3.0},
-		{"k": "a", "s": "b", "b": 2.0, "m": 1.0},
-		{"k": "b", "s": "b", "b": 1.0, "m": 2.0},
+		{"k": "a", "s": "-b", "b": 1.0, "m": 1.0, "oId": 9.0},
+		{"k": "a-", "s": "b", "b": 2.0, "m": 3.0, "oId": 10.0},
+		{"k": "a", "s": "b", "b": 2.0, "m": 1.0, "oId": 2.0},
+		{"k": "b", "s": "b", "b": 1.0, "m": 2.0, "oId": 10.0},
 	}
 	maxRows := 2
 	if tier == "thorough" {
